@@ -347,8 +347,14 @@ def evaluate(ctx, r, cfg, nodes, cmds, hooks, meta):
     if runner.outcome(r) != 'ok':
         return
     begin, ret_i = fold.session_start_index(r.events)
-    if ret_i is None or r.events[ret_i].get('r') != 0:
-        ctx.inconclusive.append('start failed')
+    if ret_i is None:
+        ctx.inconclusive.append('start did not return')
+        return
+    if r.events[ret_i].get('r') != 0:
+        # the generator writes valid configurations only (documented layout; numbers in every notation that denotes the same value): no command
+        # can be judged against a configuration the library refused
+        errs = [e['line'] for e in r.events if e.get('e') == 'logerr'][:2]
+        ctx.violation('start-failed', 'valid-config', f'a valid configuration was rejected, no command could be submitted: {errs}', r.scenario, r.flavour, meta)
         return
     seen = batch.split_by_marks(r.events)
     for i, (line, ret, msgs) in enumerate(cmds):
